@@ -324,7 +324,7 @@ func runC04_5(c *core.Ctx) {
 		sol.Walk(func(b *flow.Block, i int, n ast.Node, before uint64) {
 			for _, cl := range flow.Calls(n) {
 				if flow.IsCall(f.Info, cl, w) {
-					c.Check(before&fOpen != 0, f.Name, "write only if opened", cl.Pos(), "write path guarded by c.opened",
+					c.Check(before&fOpen != 0 || openedGuardAtEntry(c, v, w, errClosed), f.Name, "write only if opened", cl.Pos(), "write path guarded by c.opened (here, or as the first thing the callee does)",
 						"the asynchronous write reaches "+pair[1]+" without testing c.opened: it would write to a closed (possibly reused) descriptor")
 				}
 			}
@@ -791,4 +791,61 @@ func nonNilByFacts(f *fn, g *flow.Graph, site *ast.CallExpr, errObj types.Object
 		}
 	})
 	return res
+}
+
+// openedGuardAtEntry: the callee itself refuses a closed connection before it does anything – every
+// call in its body is reached only over the edge where its receiver's opened flag is true, and the
+// other edge returns net.ErrClosed. A guard moved from all callers into the callee is the same guard.
+func openedGuardAtEntry(c *core.Ctx, v *vocab, callee *types.Func, errClosed types.Object) bool {
+	wf := fnOf(c, callee)
+	if wf == nil || wf.recvVar() == nil {
+		return false
+	}
+	const (
+		fOpen = 1 << iota
+		fNotOpen
+	)
+	isOpened := func(e ast.Expr) bool {
+		sel, ok := ast.Unparen(e).(*ast.SelectorExpr)
+		return ok && flow.FieldOf(wf.Info, sel) == v.opened && flow.ObjOf(wf.Info, sel.X) == types.Object(wf.recvVar())
+	}
+	p := &flow.Problem{Must: true}
+	p.Edge = func(e *flow.Edge, in uint64) uint64 {
+		if e.Cond != nil && e.Tag == nil && isOpened(e.Cond) {
+			if e.Sense {
+				in |= fOpen
+			} else {
+				in |= fNotOpen
+			}
+		}
+		return in
+	}
+	sol := wf.Graph().Solve(p)
+	okk, calls := true, 0
+	sol.Walk(func(b *flow.Block, i int, n ast.Node, before uint64) {
+		for _, cl := range flow.Calls(n) {
+			if id, ok := cl.Fun.(*ast.Ident); ok {
+				if _, builtin := wf.Info.Uses[id].(*types.Builtin); builtin {
+					continue
+				}
+			}
+			calls++
+			if before&fOpen == 0 {
+				okk = false
+			}
+		}
+	})
+	refused := false
+	sol.AtExit(func(b *flow.Block, facts uint64) {
+		if facts&fNotOpen == 0 {
+			return
+		}
+		r := b.Return
+		if len(r.Results) > 0 && flow.ObjOf(wf.Info, r.Results[len(r.Results)-1]) == errClosed {
+			refused = true
+		} else {
+			okk = false
+		}
+	})
+	return okk && refused && calls > 0
 }
